@@ -366,6 +366,10 @@ def run_deserialiser(data, reread=False):
 
         def monitor(des, target, value):
             _scope_monitor(des, target, value)
+            # every re-read costs a seek (one read call) even for a value of
+            # zero width (coefficients past a block end): the budget grows with
+            # the number of values, not only with the file length
+            f.read_budget += 8
             this = reader.tell()
             n = to_bit_offset(*this) - to_bit_offset(*last[0])
             reader.seek(*last[0])
